@@ -31,5 +31,5 @@ let () =
                          else SyntaxError);
                 pg_funcs = List.map parse_func (split_on '/' body) } in
       let a = accept true p in
-      Printf.sprintf "accept=%d overflow=0 det=1 undiag=0" (if a then 1 else 0)
+      Printf.sprintf "accept=%d overflow=0 det=1 undiag=0 werr_bad=0" (if a then 1 else 0)
     | _ -> "<bad case>")
